@@ -70,7 +70,7 @@ def opHandle (l : Line) : Except String String := do
   let probes ← l.bytesList "probe"
   -- the frontend is built from the *validated* configuration (Gen.Validate.UDP, regenerated from source)
   let vc := Gen.Validate.UDP.validate { PrivateKey_empty := false, MaxNumWant := (← l.nat "maxnw"), DefaultNumWant := (← l.nat "defnw"),
-                                         MaxScrapeInfoHashes := (← l.nat "maxscrape") }
+                                         MaxScrapeInfoHashes := (← l.nat "maxscrape"), MaxClockSkew := skew }
   let opts : ParseOpts := { allowIPSpoofing := (← l.bool "spoof"), realIPHeaderSet := false, maxNumWant := vc.MaxNumWant.toNat,
                              defaultNumWant := vc.DefaultNumWant.toNat, maxScrapeInfoHashes := vc.MaxScrapeInfoHashes.toNat }
   let logic ← logicOf l
@@ -79,14 +79,14 @@ def opHandle (l : Line) : Except String String := do
   let m1 := slice pkt 0 4 ++ src
   let m2 := Bytes.be32 ((now / 1000000000) % 2^32).toNat ++ src
   let mac : Mac := fun _ msg => if msg == m1 then tag ++ List.replicate 28 0 else if msg == m2 then gtag ++ List.replicate 28 0 else List.replicate 32 0
-  let r := handleRequest mac lower { key := [], skewNs := skew, opts := opts } logic now pkt src
+  let r := handleRequest mac lower { key := [], skewNs := vc.MaxClockSkew, opts := opts } logic now pkt src
   let tx := slice pkt 12 16
   if r.panic then return "PANIC\tpanic"
   let action := Bytes.toNatBE (slice pkt 8 12)
   let tag := match r.out, r.call with
     | none, _ => "silent"
     | some b, none => if Bytes.toNatBE (b.take 4) == 3 then
-        (if action != 0 && !validate mac [] (slice pkt 0 8) src now skew then "badconn" else "reject") else "connect"
+        (if action != 0 && !validate mac [] (slice pkt 0 8) src now vc.MaxClockSkew then "badconn" else "reject") else "connect"
     | some b, some (.announce q) => if Bytes.toNatBE (b.take 4) == 3 then "logicerr" else
         "announce" ++ (if action == 4 then "+a4" else "") ++ (if q.peer.fam == .v6 then "+v6" else "") ++ (if q.ipProvided then "+spoofed" else "") ++ (if q.params.isEmpty then "" else "+params")
     | some b, some (.scrape _) => if Bytes.toNatBE (b.take 4) == 3 then "logicerr" else "scrape"
@@ -102,7 +102,7 @@ def opEcho (l : Line) : Except String String := do
   let tag ← l.bytes "tag"
   let gtag ← l.bytes "gtag"
   let vc := Gen.Validate.UDP.validate { PrivateKey_empty := false, MaxNumWant := (← l.nat "maxnw"), DefaultNumWant := (← l.nat "defnw"),
-                                         MaxScrapeInfoHashes := (← l.nat "maxscrape") }
+                                         MaxScrapeInfoHashes := (← l.nat "maxscrape"), MaxClockSkew := skew }
   let opts : ParseOpts := { allowIPSpoofing := false, realIPHeaderSet := false, maxNumWant := vc.MaxNumWant.toNat,
                              defaultNumWant := vc.DefaultNumWant.toNat, maxScrapeInfoHashes := vc.MaxScrapeInfoHashes.toNat }
   let lower : Bytes → Bytes := Query.asciiLower   -- parseQuery lower-cases ASCII letters only (D27)
@@ -114,7 +114,7 @@ def opEcho (l : Line) : Except String String := do
                                     interval := ((req.left % 1000 + 1 : Nat) : Int) * 1000000000, minInterval := 0,
                                     v4peers := [req.peer], v6peers := [req.peer] },
       scrape := fun _ => .ok { files := [] } }
-  let r := handleRequest mac lower { key := [], skewNs := skew, opts := opts } logic now pkt src
+  let r := handleRequest mac lower { key := [], skewNs := vc.MaxClockSkew, opts := opts } logic now pkt src
   if r.panic then return "PANIC\tpanic"
   pure (showOut (slice pkt 12 16) r.out ++ "\t" ++ (match r.out with | none => "silent" | some b => if Bytes.toNatBE (b.take 4) == 3 then "reject" else "echo"))
 
